@@ -699,3 +699,79 @@ def check_popped_default(ctx: Ctx, qual, key, rule="NONETEST"):
     ctx.decide(tested, rule, f"{qual}:{key}:none-default", (fi, s), f"`{name} is None` selects the automatic value",
                f"`{U(s)[:70]}` applies the automatic value only when the option is absent{'' if none_default else ' (pop default)'}: an explicit {key}=None — documented as automatic — reaches the analysis as None")
     return 1
+
+
+# -------------------------------------------------------------------------------------------------- round 11
+def check_no_override(ctx: Ctx, base_cls: str, member: str, rule="OVERRIDE"):
+    """the rule that decides ``member`` of ``base_cls`` speaks for the whole class family only if no subclass replaces it: an
+    override (other than a pure delegation to super()) is another implementation that the anchored rule never saw"""
+    m = ctx.model
+    base = m.cls(base_cls)
+    bad = None
+    n = 0
+    for ci in m.subclasses(base):
+        for fi in ci.methods.get(member, []):
+            if fi.cls is not ci:
+                continue
+            n += 1
+            body = [s for s in fi.node.body if not (isinstance(s, ast.Expr) and isinstance(s.value, ast.Constant))]
+            deleg = len(body) == 1 and isinstance(body[0], ast.Return) and body[0].value is not None and U(body[0].value).startswith(f"super().{member}")
+            if not deleg:
+                bad = bad or fi
+    ctx.decide(bad is None, rule, f"droplets.droplets.{base_cls}.{member}:family", bad if bad is not None else base.node,
+               f"{base_cls}.{member} is the implementation every droplet class uses",
+               f"{bad.qualname if bad is not None else ''} replaces {base_cls}.{member} for its class: what holds for the anchored implementation (the predicate, its metric and its strictness) "
+               "does not hold for droplets of that class — e.g. two diffuse droplets are reported to overlap although their surface distance is positive")
+    return 1
+
+
+def check_flag_tests(ctx: Ctx, quals, rule="FLAGTEST"):
+    """boolean options are used by their truth value: `flag is True` / `flag is False` is false for numpy booleans and for 1/0,
+    so a caller passing `inplace=np.bool_(True)` (an element of a mask) silently gets the other branch"""
+    m = ctx.model
+    n = 0
+    for q in quals:
+        if not m.has_func(q):
+            continue
+        fi = m.func(q)
+        flags = {p for p in fi.all_params if isinstance(fi.default_of(p), ast.Constant) and isinstance(fi.default_of(p).value, bool)}
+        if not flags:
+            continue
+        bad = [c for c in ast.walk(fi.node) if isinstance(c, ast.Compare) and len(c.ops) == 1 and isinstance(c.ops[0], (ast.Is, ast.IsNot))
+               and isinstance(c.left, ast.Name) and c.left.id in flags and isinstance(c.comparators[0], ast.Constant) and isinstance(c.comparators[0].value, bool)]
+        n += 1
+        ctx.decide(not bad, rule, f"{fi.qualname}:flags", (fi, bad[0]) if bad else fi, f"boolean options ({', '.join(sorted(flags))}) are used by their truth value",
+                   f"`{U(bad[0]) if bad else ''}` compares a boolean option by identity: a truthy value that is not the literal (numpy.bool_ from a mask, 1) takes the other branch — "
+                   "e.g. an in-place merge requested with a numpy boolean returns a new object and leaves the droplet unmodified")
+    return n
+
+
+def check_property_setters_kept(ctx: Ctx, root_cls="DropletBase", rule="WIRING"):
+    """a subclass that re-declares a property getter creates a *new* property: unless it also re-declares the setter, assigning
+    the attribute raises AttributeError for that class although the base class supports it"""
+    m = ctx.model
+    base = m.cls(root_cls)
+    n = 0
+    bad = None
+    for ci in [base] + m.subclasses(base):
+        for name, lst in ci.methods.items():
+            own = [f for f in lst if f.cls is ci]
+            kinds = {f.kind for f in own}
+            if not (kinds & {"getter", "property"}) or "setter" in kinds:
+                continue
+            # does an ancestor provide a setter?
+            anc = [c for c in m.mro(ci)[1:] if any(f.kind == "setter" for f in c.methods.get(name, []))]
+            if not anc:
+                continue
+            n += 1
+            # the ancestor's setter that only raises (documented "cannot set") is not lost
+            aset = [f for f in anc[0].methods.get(name, []) if f.kind == "setter"][0]
+            abody = [s for s in aset.node.body if not (isinstance(s, ast.Expr) and isinstance(s.value, ast.Constant))]
+            if abody and isinstance(abody[0], ast.Raise):
+                continue
+            bad = bad or (own[0], anc[0])
+    ctx.decide(bad is None, rule, f"droplets.droplets:{root_cls}:setters-kept", bad[0] if bad else base.node,
+               "no class re-declares a property getter without the setter its base class provides",
+               f"{bad[0].qualname if bad else ''} re-declares the property without a setter while {bad[1].name if bad else ''} defines one: for this class `obj.{bad[0].name if bad else ''} = value` raises "
+               "AttributeError — setting the quantity and reading it back no longer works for this droplet class")
+    return 1
